@@ -284,6 +284,12 @@ var endings = []string{"cclose", "rst", "quit", "bad", "half", "unread", "halfcr
 var tlsFaults = []string{"plaintext", "garbage", "abort", "none", "selfsigned", "foreign", "expired"}
 
 func genC19(tier string, seed uint64, emit func(string)) {
+	// the application looks at the registry (Server.Conns) all the time while clients come and go on both ports
+	emit("pollchurn 4 8 700")
+	emit("pollchurn 2 3 400")
+	if tier == "thorough" {
+		emit("pollchurn 8 16 5000")
+	}
 	r := NewRng(seed)
 	// every ending mode at several positions of a pipeline, plain and TLS
 	for _, k := range []string{"p", "t"} {
